@@ -180,6 +180,9 @@ type Shape struct {
 	UintOut bool
 }
 
+// UintInfo is the type of a uint argument of the given width.
+func UintInfo(bits int) types.Info { return uintInfo(bits) }
+
 func uintInfo(bits int) types.Info {
 	return types.Info{Type: types.TUint, IsConcrete: true, Bits: types.Size(bits), MinBits: types.Size(bits)}
 }
